@@ -1,8 +1,9 @@
 """C13 — Interrupts never leave a half-applied rename.
 
-translate   translate/signal_handlers.py -> Gen/SignalHandlers.lean (handler bodies, flag check, exit code, prompt guard users)
+translate   translate/signal_handlers.py -> Gen/SignalHandlers.lean (handler bodies, where the flag is tested, exit code,
+            prompt guard users, release of held locks before the prompt exit)
 prove       RModel.Props.C13 (signals_do_not_change_effects for ANY delivery points; status_130_iff_signalled;
-            prompt_exit_no_change; C13_partial; witnesses prompt_lock_left / failed_reports_130)
+            prompt_exit_no_change / prompt_exit_releases_held_locks; C13_full_holds; before-fix theorems)
 oracle      scenario family (1..3 edited files x 0..2 renames incl. a file inside a renamed directory) x commands
             rename -y | plan+apply | undo | redo | replace -y: SIGINT / SIGTERM, once / three times, raised by the shim
             immediately before mutating call k of the real trace.  Independent verdict per run:
@@ -11,8 +12,13 @@ oracle      scenario family (1..3 edited files x 0..2 renames incl. a file insid
               for SIGINT 130, or 0 with the complete result when ctrlc's helper thread (which runs the handler body)
               stored the flag only after main had read it: the command "had already finished" when the interrupt was
               noticed.  If every SIGINT x3 run of a command ends with 0 the flag is evidently never set: violation.
-            Prompt: `rename` without -y through a pty, signal while "Apply? [y/N]" is waiting.
-            Failing command: apply of a stale plan (fails by itself after editing the first file) + signal.
+            Prompts through a pty: `rename` without -y (guarded prompt: SIGINT exits 130 at once, nothing changed, lock
+            released; SIGTERM is honoured once the prompt is answered) and `replace` without -y (no guard: both
+            signals are honoured once the prompt is answered).
+            Failing command: apply of a stale plan (fails by itself after editing the first file) + signal must report
+            the failure status and the Error line, exactly as without the signal.
+            The three repaired defects (lock left at the prompt exit, 130 over a failed command) are VIOLATIONs if
+            they return.
 correspond  every run: letters of the traced calls -> `c13run` of the Lean model (status, calls performed, lock,
             history, user calls) vs observed; the abstract trace of a signalled run must equal the signal-free one.
 """
@@ -81,27 +87,33 @@ def history_len(d):
 
 
 _TS = re.compile(r"-\d{9,}")
+_PIDTMP = re.compile(r"\.\d+\.tmp$")
 
 
 def norm_trace(events):
     out = []
     for t in shim.abstract(events, logs="marker"):
-        out.append(tuple(_TS.sub("-<TS>", x) if isinstance(x, str) else x for x in t))
+        out.append(tuple(_PIDTMP.sub(".PID.tmp", _TS.sub("-<TS>", x)) if isinstance(x, str) else x for x in t))
     return out
+
+
+_PROBE = re.compile(r"^\.tmp[A-Za-z0-9]{6}(/|$)")
 
 
 def letter(e):
     """one letter per mutating call (the alphabet of Driver/OpsSignals.lean)"""
     if not e.ok:
         return "o"
+    if _PROBE.match(e.path):
+        return "o"          # detect_case_insensitive_fs: created and removed, never part of the user tree
     if e.path == LOCK:
         if e.op == "openw":
             return "L"
         if e.op == "unlink":
             return "U"
         return "o"
-    if e.path == HIST and e.op == "openw":
-        return "h"
+    if (e.path == HIST and e.op == "openw") or (e.op == "rename" and e.path2 == HIST):
+        return "h"          # the moment the new history becomes visible (written in place, or temp file renamed over it)
     paths = [e.path] + ([e.path2] if e.path2 else [])
     if any(not (p == ".renamify" or p.startswith(".renamify/")) for p in paths):
         return "u"
@@ -322,27 +334,37 @@ def run_pty(args, d, sig, answer, wait_for=b"Apply? [y/N]:", timeout=15):
         shutil.rmtree(tmp, ignore_errors=True)
 
 
-def prompt_cases(ctx, job_tree, S, R, thorough):
-    """returns list of result dicts; each is judged by the caller"""
+def prompt_cases(ctx, command, job_tree, S, R, thorough):
+    """`rename` / `replace` without -y on a pty; returns list of result dicts, each judged by the caller"""
     out = []
-    variants = [("INT", pysignal.SIGINT, None), ("TERM", pysignal.SIGTERM, b"n\n"), ("TERM", pysignal.SIGTERM, b"y\n")]
-    if thorough:
-        variants += [("INT", pysignal.SIGINT, None), (None, None, b"y\n"), (None, None, b"n\n")]
+    if command == "rename":
+        variants = [("INT", pysignal.SIGINT, None), ("TERM", pysignal.SIGTERM, b"n\n"), ("TERM", pysignal.SIGTERM, b"y\n")]
+        if thorough:
+            variants += [("INT", pysignal.SIGINT, None), (None, None, b"y\n"), (None, None, b"n\n")]
+        args, wait_for = ["rename", S, R, "--no-auto-init"], b"Apply? [y/N]:"
+        plan_args = ["plan", S, R, "--dry-run", "--output", "json", "--no-auto-init"]
+    else:
+        variants = [("INT", pysignal.SIGINT, b"n\n"), ("INT", pysignal.SIGINT, b"y\n"), ("TERM", pysignal.SIGTERM, b"y\n")]
+        if thorough:
+            variants += [("TERM", pysignal.SIGTERM, b"n\n"), (None, None, b"y\n")]
+        args, wait_for = ["replace", S, R, "--no-auto-init"], b"[y/N]:"
+        plan_args = ["replace", S, R, "--dry-run", "--output", "json", "--no-auto-init"]
     for name, signo, answer in variants:
         with common.scratch() as d:
             common.materialize(d, job_tree)
             before = common.snapshot(d)
-            plan = json.loads(common.cli(["plan", S, R, "--dry-run", "--output", "json", "--no-auto-init"], d)[1])["plan"]
-            complete, prob = oracle.expected_tree(before, plan, d)
+            pj = json.loads(common.cli(plan_args, d)[1])
+            complete, prob = oracle.expected_tree(before, pj.get("plan", pj), d)
             if prob:
                 continue
             try:
-                seen, rc, buf, run = run_pty(["rename", S, R, "--no-auto-init"], d, signo, answer)
+                seen, rc, buf, run = run_pty(args, d, signo, answer, wait_for=wait_for)
             except OSError as ex:
                 ctx.notes.append(f"pty not available: {ex}")
                 return out
             after = common.snapshot(d)
-            out.append({"signal": name, "answer": answer.decode().strip() if answer else None, "prompt_seen": seen, "rc": rc,
+            out.append({"command": command, "args": args, "signal": name, "answer": answer.decode().strip() if answer else None,
+                        "prompt_seen": seen, "rc": rc,
                         "state": "complete" if after == complete else "unchanged" if after == before else "partial",
                         "lock": os.path.exists(os.path.join(d, LOCK)), "hist": history_len(d),
                         "letters": letters(run), "calls": len(run.mutating),
@@ -481,47 +503,52 @@ def run(ctx):
                           {"case": case, "request": rq, "model": m, "observed": obs, "trace_equals_signal_free": same_trace})
                 break
 
-    # ---- the confirmation prompt ------------------------------------------------------------------
-    sw, rw = ["foo", "bar"], ["baz", "qux"]
-    ptree = build_tree(2, 1, sw, False)
-    pres = prompt_cases(ctx, ptree, "foo_bar", "baz_qux", ctx.thorough)
+    # ---- the confirmation prompts -----------------------------------------------------------------
     preqs, pexp = [], []
-    int_run = next((r for r in pres if r["signal"] == "INT" and r["prompt_seen"]), None)
-    yes_run = next((r for r in pres if r["answer"] == "y" and r["state"] == "complete"), None)
-    pre_n = None
-    if int_run and yes_run:
-        pre_n = len(os.path.commonprefix([int_run["letters"], yes_run["letters"]]))
-    for r in pres:
-        ctx.case(("prompt", r["signal"], r["answer"]))
-        ctx.count(f"prompt:{r['signal']}:{r['answer']}")
-        case = {"op": "prompt", "tree": {k: (v[1].decode() if v[0] == "f" else v[0]) for k, v in ptree.items()},
-                "args": ["rename", "foo_bar", "baz_qux", "--no-auto-init"], "signal": r["signal"], "answer": r["answer"]}
-        if not r["prompt_seen"]:
-            ctx.broke("machinery", "pty prompt", {"case": case, "observed": r})
-            continue
-        want_state = "complete" if r["answer"] == "y" else "unchanged"
-        want_rc = 130 if r["signal"] else 0
-        okay = (r["state"] == want_state and r["rc"] == want_rc and not r["lock"] and r["hist"] == (1 if want_state == "complete" else 0))
-        if okay:
-            pass
-        elif (r["signal"] == "INT" and r["rc"] == 130 and r["state"] == "unchanged" and r["lock"] and r["hist"] == 0
-              and r["cancelled_msg"]):
-            # exactly the recorded defect: exit inside the handler, nothing changed, lock file left
-            if not ctx.known("prompt_exit_leaves_lock"):
-                ctx.violation("fault", case, expected="status 130, tree unchanged, lock released", observed=r,
-                              model_prediction="exit(130) inside the SIGINT handler skips LockFile::drop")
+    for command, ptree in (("rename", build_tree(2, 1, ["foo", "bar"], False)), ("replace", build_tree(2, 1, ["foo", "bar"], True))):
+        pres = prompt_cases(ctx, command, ptree, "foo_bar", "baz_qux", ctx.thorough)
+        yes_run = next((r for r in pres if r["answer"] == "y" and r["state"] == "complete"), None)
+        pre_n = None
+        if command == "rename":
+            int_run = next((r for r in pres if r["signal"] == "INT" and r["prompt_seen"]), None)
+            if int_run and yes_run:
+                pre_n = len(os.path.commonprefix([int_run["letters"], yes_run["letters"]]))
+        elif yes_run:
+            no_run = next((r for r in pres if r["answer"] == "n"), None)
+            pre_n = len(os.path.commonprefix([no_run["letters"], yes_run["letters"]])) if no_run else 0
+        for r in pres:
+            ctx.case(("prompt", command, r["signal"], r["answer"]))
+            ctx.count(f"prompt:{command}:{r['signal']}:{r['answer']}")
+            case = {"op": "prompt", "tree": {k: (v[1].decode() if v[0] == "f" else v[0]) for k, v in ptree.items()},
+                    "args": r["args"], "signal": r["signal"], "answer": r["answer"]}
+            if not r["prompt_seen"]:
+                ctx.broke("machinery", "pty prompt", {"case": case, "observed": r})
+                continue
+            want_state = "complete" if r["answer"] == "y" else "unchanged"
+            want_rc = 130 if r["signal"] else 0
+            okay = (r["state"] == want_state and r["rc"] == want_rc and not r["lock"]
+                    and r["hist"] == (1 if want_state == "complete" else 0))
+            if not okay:
+                note = None
+                if r["lock"] and r["signal"] == "INT" and r["rc"] == 130:
+                    note = "the defect repaired by d01db83 is back: exit inside the SIGINT handler leaves the lock file"
+                ctx.violation("fault", case, expected={"state": want_state, "rc": want_rc, "lock": False,
+                                                       "history_entries": 1 if want_state == "complete" else 0},
+                              observed=r, note=note,
+                              model_prediction="C13.prompt_exit_releases_lock / sigterm_at_prompt_completes / unguarded_prompt_never_exits")
                 return
-        else:
-            ctx.violation("fault", case, expected={"state": want_state, "rc": want_rc, "lock": False}, observed=r)
-            return
-        # correspondence with the model: pre-prompt letters + P + what follows the answer
-        if pre_n is not None and r["signal"]:
-            pre, post = yes_run["letters"][:pre_n], yes_run["letters"][pre_n:]
-            prog = pre + "P" + ("U" if r["answer"] == "n" else post)
-            preqs.append(model_request(prog, 0, pre_n, r["signal"], 1))
-            pexp.append((case, f"status={r['rc']} calls={r['calls']} lock={1 if r['lock'] else 0} "
-                         f"history={r['hist']} user={r['letters'].count('u')} "
-                         f"exited={1 if r['answer'] is None and r['calls'] == pre_n else 0}"))
+            # correspondence with the model
+            if pre_n is not None and r["signal"]:
+                pre, post = yes_run["letters"][:pre_n], yes_run["letters"][pre_n:]
+                if command == "rename":
+                    prog = pre + "P" + ("U" if r["answer"] == "n" else post)     # declined: only the lock release follows
+                    exited = 1 if r["answer"] is None and r["cancelled_msg"] else 0
+                else:
+                    prog = pre + ("" if r["answer"] == "n" else post)             # no guard step in replace
+                    exited = 0
+                preqs.append(model_request(prog, 0, pre_n, r["signal"], 1))
+                pexp.append((case, f"status={r['rc']} calls={r['calls']} lock={1 if r['lock'] else 0} "
+                             f"history={r['hist']} user={r['letters'].count('u')} exited={exited}"))
     if preqs:
         model = common.run_model(preqs)
         ctx.cov["disagreements_checked"] += len(preqs)
@@ -547,18 +574,16 @@ def run(ctx):
         if not s["same_tree_as_base"] or s["lock"] or s["hist"] != 0:
             ctx.violation("fault", case, expected="the same result as the signal-free failing run", observed=s)
             return
-        if s["rc"] == s["base_rc"]:
-            continue          # the failure is reported as a failure: nothing C13 objects to
-        if s["rc"] == 130:
-            if not ctx.known("failed_command_reports_130"):
-                ctx.violation("fault", case, expected=f"status {s['base_rc']} (the command failed over a partially changed tree)",
-                              observed=s, model_prediction="flag check precedes the result match: 130")
-                return
+        if s["rc"] == s["base_rc"] and s["error_line_shown"]:
+            # the failure is reported as the failure it is, signalled or not
             sreqs.append(model_request(s["base_letters"], s["base_rc"], k, sig, rep))
             sexp.append((case, f"status={s['rc']} calls={s['calls']}"))
-        else:
-            ctx.violation("fault", case, expected=f"status {s['base_rc']} or 130", observed=s)
-            return
+            continue
+        ctx.violation("fault", case, expected=f"status {s['base_rc']} and the 'Error:' line, as without the signal", observed=s,
+                      model_prediction="C13.failed_command_keeps_its_status",
+                      note=("the defect repaired by 279b830 is back: a failed command that was signalled reports 130"
+                            if s["rc"] == 130 else None))
+        return
     if sreqs:
         model = common.run_model(sreqs)
         ctx.cov["disagreements_checked"] += len(sreqs)
@@ -583,22 +608,20 @@ def replay(ctx, path):
         with common.scratch() as d:
             common.materialize(d, tree)
             before = common.snapshot(d)
-            seen, rc, buf, run = run_pty(case["args"], d, signo, ans)
+            wait_for = b"Apply? [y/N]:" if case["args"][0] == "rename" else b"[y/N]:"
+            seen, rc, buf, run = run_pty(case["args"], d, signo, ans, wait_for=wait_for)
             r = {"prompt_seen": seen, "rc": rc, "unchanged": common.snapshot(d) == before,
                  "lock": os.path.exists(os.path.join(d, LOCK)), "tail": buf[-160:].decode("utf-8", "replace")}
         print(json.dumps(r, indent=1))
-        if r["lock"] and rc == 130 and r["unchanged"] and case.get("signal") == "INT":
-            if not ctx.known("prompt_exit_leaves_lock"):
-                ctx.violation("fault", case, expected="lock released", observed=r)
-        elif r["lock"] or not seen:
-            ctx.violation("fault", case, expected="lock released", observed=r)
+        want_rc = 130 if case.get("signal") else 0
+        if r["lock"] or not seen or rc != want_rc or (case.get("answer") != "y" and not r["unchanged"]):
+            ctx.violation("fault", case, expected=f"status {want_rc}, lock released, tree unchanged unless answered y", observed=r)
     elif op == "stale-plan apply":
         m = re.search(r"SIG(\w+) x(\d+) before mutating call (\d+)", case["steps"][-1])
         s = stale_case(m.group(1), int(m.group(2)), int(m.group(3)))
         print(json.dumps(s, indent=1, default=str))
-        if s and s["base_rc"] != 0 and s["base_partial"] and s["rc"] == 130:
-            if not ctx.known("failed_command_reports_130"):
-                ctx.violation("fault", case, expected=f"status {s['base_rc']}", observed=s)
+        if s and s["base_rc"] != 0 and (s["rc"] != s["base_rc"] or not s["error_line_shown"] or not s["same_tree_as_base"]):
+            ctx.violation("fault", case, expected=f"status {s['base_rc']} with the Error line, as without the signal", observed=s)
     elif isinstance(case, dict) and "command" in case:
         job = Job(case["command"], case["edited_files"], case["renames"], case["search"].split("_"), case["replace"].split("_"))
         res = run_job(job, lambda j: [case["k"]], [(case["signal"], case["repeat"])])
